@@ -49,6 +49,10 @@ const ARGS: &[(&str, Cls)] = &[
     (".3-.1-.2", Cls::Neg),
 ];
 
+/// A script line starting with this mark is a reply to a pending INPUT (typed as
+/// a plain line when nothing is pending).
+const REPLY_MARK: char = '\u{1}';
+
 const STMTS: &[&str] = &["C = 5", "PRINT 1+1", "V(3) = 2", "Q$ = \"RND\"", "REM RND(1)", "PRINT \"RND(1)\""];
 
 #[derive(Serialize, Deserialize, Debug, Clone)]
@@ -63,6 +67,9 @@ pub enum RndOp {
     Nested(u8),
     /// A program whose RND argument comes from a user function that calls RND.
     ViaDef(u8),
+    /// A program whose INPUT target is an array cell with RND in its subscript
+    /// (directly or through a user function): one program-level call, one step.
+    InputCell(u8),
 }
 
 #[derive(Serialize, Deserialize, Debug, Clone)]
@@ -109,6 +116,7 @@ fn op_strategy() -> impl Strategy<Value = RndOp> {
         1 => (1u8..5).prop_map(RndOp::Loop),
         2 => arg().prop_map(RndOp::Nested),
         1 => (1u8..9).prop_map(RndOp::ViaDef),
+        1 => (0u8..2).prop_map(RndOp::InputCell),
     ]
 }
 
@@ -175,6 +183,16 @@ fn lines_of(op: &RndOp) -> Vec<String> {
             format!("10 DEF FN D(N) = INT(RND(1) * N) + {}", if n % 2 == 0 { 1 } else { 0 }),
             format!("20 PRINT RND(FN D({}))", n),
             "RUN".to_string(),
+            "10".to_string(),
+            "20".to_string(),
+        ],
+        RndOp::InputCell(k) => vec![
+            "5 DEF FN D(N) = INT(RND(1) * N)".to_string(),
+            if k % 2 == 0 { "10 INPUT W(INT(RND(1) * 3))".to_string() } else { "10 INPUT W(FN D(3))".to_string() },
+            "20 PRINT RND(1)".to_string(),
+            "RUN".to_string(),
+            format!("{}5", REPLY_MARK),
+            "5".to_string(),
             "10".to_string(),
             "20".to_string(),
         ],
@@ -276,6 +294,17 @@ fn expect_of(op: &RndOp, m: &mut Model) -> Vec<(Vec<Expect>, bool)> {
             let run = (vec![Expect::Exact(format!("{}\n", model_value(m.state)))], false);
             vec![(vec![], false), (vec![], false), run, (vec![], false), (vec![], false)]
         }
+        RndOp::InputCell(k) => {
+            // the subscript's call, then PRINT RND(1): two steps in all (the reply is
+            // acceptable, so the INPUT statement is executed to completion exactly once)
+            let _ = k;
+            m.state = model_next(m.state);
+            m.state = model_next(m.state);
+            m.started = true;
+            let v = (vec![Expect::Exact(format!("{}\n", model_value(m.state)))], false);
+            let none = (vec![], false);
+            vec![none.clone(), none.clone(), none.clone(), none.clone(), v, none.clone(), none.clone(), none]
+        }
         RndOp::Loop(n) => {
             let mut out = vec![(vec![], false), (vec![], false), (vec![], false)];
             let mut prints = vec![];
@@ -325,7 +354,11 @@ fn web_run(seed: u64, lines: &[String]) -> Result<Vec<(Vec<String>, Option<Strin
         js.randomize(seed);
         let mut res = vec![];
         for l in lines {
-            js.start_evaluating(l.clone());
+            match l.strip_prefix(REPLY_MARK) {
+                Some(reply) if matches!(js.get_state(), JsInterpreterState::AwaitingInput) => js.provide_input(reply.to_string()),
+                Some(reply) => js.start_evaluating(reply.to_string()),
+                None => js.start_evaluating(l.clone()),
+            }
             let mut prints = vec![];
             let mut budget = 10_000;
             loop {
@@ -375,7 +408,15 @@ fn check_script(s: &RndScript, rec: &mut CaseRec) -> Verdict {
             let mut stops = vec![];
             for (i, sess) in [&mut a, &mut b].into_iter().enumerate() {
                 let mut budget = 10_000u64;
-                match sess.line_and_run(line, &mut budget, &mut outs[i]) {
+                let res = match line.strip_prefix(REPLY_MARK) {
+                    Some(reply) if sess.state().map(|s| s == St::AwaitingInput).unwrap_or(false) => sess.reply(reply).and_then(|r| {
+                        outs[i].extend(r.out);
+                        sess.run_on(&mut budget, &mut outs[i])
+                    }),
+                    Some(reply) => sess.line_and_run(reply, &mut budget, &mut outs[i]),
+                    None => sess.line_and_run(line, &mut budget, &mut outs[i]),
+                };
+                match res {
                     Ok(stop) => stops.push(stop),
                     Err(Crash(p)) => {
                         let key = if p.contains("overflow") { "panic-overflow" } else { "panic" };
@@ -390,7 +431,7 @@ fn check_script(s: &RndScript, rec: &mut CaseRec) -> Verdict {
             }
             let errk = match &stops[0] {
                 RunStop::Error(e) => Some(e.kind),
-                RunStop::Idle => None,
+                RunStop::Idle | RunStop::Input => None,
                 other => return Verdict::fail("unexpected-stop", format!("line {:?}: {:?}", line, other)),
             };
             if exp_err {
@@ -523,7 +564,7 @@ pub fn property() -> Property {
     ];
     Property {
         id: "C18",
-        rule: "state-sweep/state-boundaries: generator states stepped through the rng_step hook and compared bit-for-bit with an independent u128 model (quick: every 128th of the 2^33 states plus all power-of-two neighbours and both ends; thorough: all 2^33 states; each 65536-state chunk is one counted case, coverage.states_checked gives the number of states). seed-step: seeds from boundaries + random u64, non-trivial iff seed >= 2^33. api-scripts: random scripts of PRINT RND(x) / RND inside expressions / RND(RND(x)) / RND of a user function that itself calls RND / numbered programs and FOR loops on two core interpreters and the Web adapter, all seeded alike, compared with the model; non-trivial iff the script uses positive, zero and negative arguments and the seed is >= 2^33; distinct by script.",
+        rule: "state-sweep/state-boundaries: generator states stepped through the rng_step hook and compared bit-for-bit with an independent u128 model (quick: every 128th of the 2^33 states plus all power-of-two neighbours and both ends; thorough: all 2^33 states; each 65536-state chunk is one counted case, coverage.states_checked gives the number of states). seed-step: seeds from boundaries + random u64, non-trivial iff seed >= 2^33. api-scripts: random scripts of PRINT RND(x) / RND inside expressions / RND(RND(x)) / RND of a user function that itself calls RND / RND in the subscript of an INPUT target / numbered programs and FOR loops on two core interpreters and the Web adapter, all seeded alike, compared with the model; non-trivial iff the script uses positive, zero and negative arguments and the seed is >= 2^33; distinct by script.",
         assumptions: vec![
             "RND(0) before any positive call after seeding has no defined 'previous value'; only 0 <= v < 1 is required there",
             "f64 division by 2^33 is exact for states < 2^33, so bit-equality is the right comparison",
